@@ -153,11 +153,53 @@ def run(ctx):
     for k in failing:
         m, op, pred, om = bmeta[k]
         viol(ctx, f"{op}:{pred}", f"the result of {op} is not {pred}", {"kind": "det-shape", "op": op, "pred": pred, "machine": m, "output": om})
+    stream_reverse_grow(ctx, 15 if quick else 120)
     ctx.sample({"machine": plan[0][0], "strings": plan[0][1][:4]})
+
+
+def stream_reverse_grow(ctx, n):
+    """r = m.reverse is extended with a new accepting branch and then trimmed: the new branch must survive and all weights
+    must be those of the extended machine (exact oracle); every remaining state must lie on an accepting path"""
+    jobs, metas = [], []
+    for _ in range(n):
+        m = gen(ctx.rng)
+        sts = F.states_of(m)
+        if not m["init"] or not m["final"] or not sts:
+            continue
+        new = max(sts) + 3
+        rev = {"nT": m["nT"], "init": [list(x) for x in m["final"]], "final": [list(x) for x in m["init"]],
+               "arcs": [[j, a, i, w] for i, a, j, w in m["arcs"]]}
+        src = ctx.rng.choice([q for q, _ in rev["init"]] + [j for _, _, j, _ in rev["arcs"]])
+        extra_arcs = [[src, ctx.rng.randrange(m["nT"]), new, "1/3"]]
+        extra_final = [[new, "1/2"]]
+        ext = {"nT": m["nT"], "init": rev["init"], "final": rev["final"] + extra_final, "arcs": rev["arcs"] + extra_arcs}
+        strs = [list(x) for x in F.strings(m["nT"], min(4, len(sts) + 1))][:30]
+        jobs.append({"queries": [{"op": "reverse_grow_trim", "m": m, "extra_arcs": extra_arcs, "extra_final": extra_final, "xs": strs, "timeout": 20}]})
+        metas.append((m, ext, strs, extra_arcs, extra_final))
+    res = run_w(jobs)
+    for (m, ext, strs, ea, ef), r in zip(metas, res):
+        q = r[0]
+        ctx.dist("reverse-then-extended-then-trimmed")
+        if "err" in q:
+            viol(ctx, f"reverse_grow_trim:error:{q['err'][:30]}", f"m.reverse extended and trimmed raised {q['err']}", {"kind": "det-error", "op": "reverse_grow_trim", "machine": m, "extra_arcs": ea, "extra_final": ef, "error": q["err"]})
+            continue
+        for xs, enc in zip(strs, q["ok"]["values"]):
+            try:
+                ref = F.wfsa_oracle(ext, xs)
+            except ZeroDivisionError:
+                continue
+            ctx.cov["oracle_cases"] += 1
+            ctx.count_case(("reverse-grow", json.dumps(m), tuple(xs)), nontrivial=ref != 0)
+            if not close_enough(dec_val(enc), ref, rel=1e-9):
+                viol(ctx, "reverse_grow_trim:value", f"r = m.reverse, extended by the arc {ea[0]} and the final state {ef[0][0]}, then r.trim gives {xs} the weight {dec_val(enc)}; the extended machine gives {ref}",
+                     {"kind": "det", "op": "reverse_grow_trim", "machine": m, "extra_arcs": ea, "extra_final": ef, "xs": xs, "observed": str(dec_val(enc)), "expected": str(ref)})
+                break
 
 
 def replay(obj):
     q = {"op": obj["op"], "m": obj["machine"], "xs": [obj.get("xs", [])]}
+    if obj["op"] == "reverse_grow_trim":
+        q["extra_arcs"], q["extra_final"] = obj["extra_arcs"], obj["extra_final"]
     r = run_w([{"queries": [q]}])[0][0]
     print("machine:", json.dumps(obj["machine"]))
     print(obj["op"], "->", json.dumps(r)[:2000], "expected:", obj.get("expected"))
